@@ -64,7 +64,7 @@ def cidTrace : Component := { name := "cid-trace", σ := View, init := {}, step 
   witnesses and by the part's self-test):
     new <internal> <cid> <expiration|-> <token> <rotate 0|1>
     limit <peer limit>  | reg <cid> <expiration|-> <token> | retire <seq> <dcid> <rtt> <now>
-    timeout <now> | tx <constraint 0..3> <pn> <writes e.g. 110|-> | ack <pn,..> | loss <pn,..> | confirmed
+    timeout <now> | tx <constraint 0..3> <pn> <room> | ack <pn,..> | loss <pn,..> | confirmed
   answers `<out> | seqs=<seq:status,...> rpt=<n> next=<n> frames=<seq/rpt,...>`
 -/
 open Quic.Conn in
@@ -122,8 +122,7 @@ def localStep (st : Option LocalIds.State × Nat) (t : List String) : (Option Lo
   | some s, ["tx", c, pn, w] =>
     match c.toNat?, pn.toNat? with
     | some c, some pn =>
-      let writes := if w == "-" then [] else w.toList.map (· == '1')
-      let s' := LocalIds.onTransmit s (constraintOf c) pn writes
+      let s' := LocalIds.onTransmit s (constraintOf c) pn (w.toNat?.getD 0)
       ((some s', p), "ok | " ++ showLocal s')
     | _, _ => (st, "bad-op")
   | some s, ["ack", set] =>
